@@ -137,7 +137,6 @@ func VF_C11_sadd_srem() {
 }
 
 func VF_C11_scard_sismember_smembers() {
-	vfOpt("maporder", 1)
 	m := hNewDb(2)
 	st := c11Pre(m, "k", "s", 3)
 	x := vfBytes("x", 0, 1)
@@ -153,7 +152,7 @@ func VF_C11_scard_sismember_smembers() {
 		is = 1
 	}
 	vfAssert(rvEq(hExec(m, bs("sismember"), bs("k"), x), vInt(is)), "sismember-reply")
-	got := hExec(m, bs("smembers"), bs("k"))
+	got := hExecPerm(m, bs("smembers"), bs("k"))
 	// framing (bulk vs simple string) is C03's subject: members are compared as bytes
 	vfAssert(got.k == rArr && len(got.a) == len(st.mem), "smembers-reply-shape")
 	var g [][]byte
@@ -165,7 +164,6 @@ func VF_C11_scard_sismember_smembers() {
 }
 
 func VF_C11_spop() {
-	vfOpt("maporder", 1)
 	m := hNewDb(2)
 	st := c11Pre(m, "k", "s", 3)
 	withCount := vfBool("withcount")
@@ -173,9 +171,9 @@ func VF_C11_spop() {
 	var cnt int64 = 1
 	if withCount {
 		cnt = vfInt64("count")
-		got = hExec(m, bs("spop"), bs("k"), vfNumStr(cnt))
+		got = hExecPerm(m, bs("spop"), bs("k"), vfNumStr(cnt))
 	} else {
-		got = hExec(m, bs("spop"), bs("k"))
+		got = hExecPerm(m, bs("spop"), bs("k"))
 	}
 	if withCount && cnt < 0 {
 		vfAssert(got.k == rErr, "spop-negative-count-reply")
@@ -227,7 +225,6 @@ func VF_C11_spop() {
 }
 
 func VF_C11_srandmember() {
-	vfOpt("maporder", 1)
 	m := hNewDb(2)
 	st := c11Pre(m, "k", "s", 3)
 	withCount := vfBool("withcount")
@@ -236,9 +233,9 @@ func VF_C11_srandmember() {
 	if withCount {
 		cnt = vfInt64("count")
 		vfAssume(cnt > -5 && cnt < 6) // larger |count| only repeats the loop: C04's subject
-		got = hExec(m, bs("srandmember"), bs("k"), vfNumStr(cnt))
+		got = hExecPerm(m, bs("srandmember"), bs("k"), vfNumStr(cnt))
 	} else {
-		got = hExec(m, bs("srandmember"), bs("k"))
+		got = hExecPerm(m, bs("srandmember"), bs("k"))
 	}
 	if st.kind == kWrong {
 		vfAssert(isWrongType(got), "srandmember-wrongtype-reply")
@@ -349,7 +346,6 @@ func refAlgebra(op int, a, b [][]byte) [][]byte {
 
 // c11Algebra: <op> a b  /  <op>STORE d a b, with b possibly the same key as a, d possibly a or b.
 func c11Algebra(op int, store bool) {
-	vfOpt("maporder", 1)
 	m := hNewDb(2)
 	names := []string{"sdiff", "sinter", "sunion"}
 	name := names[op]
@@ -374,7 +370,7 @@ func c11Algebra(op int, store bool) {
 		if !one {
 			args = append(args, bs(kb))
 		}
-		got := hExec(m, args...)
+		got := hExecPerm(m, args...)
 		if wrong {
 			vfAssert(isWrongType(got), name+"-wrongtype-reply")
 		} else {
@@ -403,7 +399,7 @@ func c11Algebra(op int, store bool) {
 	if !one {
 		args = append(args, bs(kb))
 	}
-	got := hExec(m, args...)
+	got := hExecPerm(m, args...)
 	if wrong {
 		vfAssert(isWrongType(got), name+"-wrongtype-reply")
 		c11Post(m, "a", sa, name+"-a")
